@@ -473,6 +473,11 @@ def work_items(tier, seed):
     maxcells = 8 if tier == "quick" else 9
     fams = gen.freq_families(seed)
     dsets = gen.dir_sets(seed)
+    # uniformly spaced sectors (part of the circle), also straddling north with wrapped labels: the bin width is the step, not span/(n-1)
+    off = [0.0, 2.5, 1.0][seed % 3]
+    dsets = dsets + [("sec5_330", (np.array([330.0, 345.0, 0.0, 15.0, 30.0]) + off) % 360.0), ("sec3_350", (np.array([350.0, 10.0, 30.0]) + off) % 360.0),
+                     ("sec2_355", np.array([355.0, 5.0])), ("sec4_300", (np.array([300.0, 320.0, 340.0, 0.0]) + off) % 360.0),
+                     ("sec4_40", np.array([40.0, 50.0, 60.0, 70.0]) + off)]
     gi = 0
     for fname, f in fams:
         for dname, d in dsets:
@@ -591,7 +596,8 @@ def run(rep, tier, seed, parts=None):
     common.load_wavespectra()
     rep.rule = ("all assignments of a 3/4-value alphabet to every bin for grids of <=8/9 cells (full product), structured complete "
                 "families (every impulse, every impulse pair with every height pair, constants, ramps, checkerboards) on larger "
-                "grids up to 40 cells; x grid families (log/linear/irregular, last freq below/at/above 0.333 Hz, nf 1..5, nd 1..8, "
+                "grids up to 40 cells; x grid families (log/linear/irregular, last freq below/at/above 0.333 Hz, nf 1..5, nd 1..8 "
+                "full circles from several starts plus uniformly spaced sectors of 2-5 bins incl. ones straddling north with wrapped labels, "
                 "1D) x layout x dtype; every statistic compared with a plain bin-by-bin reference. Non-trivial = energy in >=2 "
                 "frequencies and >=2 directions (>=2 frequencies for 1D).")
     rep.extra["alphabet"] = list(gen.alphabet(seed, 3 if tier == "quick" else 4))
